@@ -35,6 +35,8 @@ pub const O_ALT_PARAMS: u32 = 1 << 11;
 
 pub const JOB_A_CONFIG: u8 = 10;
 pub const JOB_A_EXPAND: u8 = 11;
+/// sets the base image against which states are delta-encoded on the wire and in the visited set
+pub const JOB_A_BASE: u8 = 13;
 
 pub fn clause_mask(cs: &[Clause]) -> u32 {
     let mut m = 0;
@@ -250,6 +252,7 @@ impl Findings {
 }
 
 pub struct AWorker {
+    pub base: Image,
     pub cfg: ACfg,
     pub scratch: Scratch,
     pub dir_obs: PathBuf,
@@ -543,7 +546,7 @@ impl AWorker {
         let dir_obs = scratch.fresh("obs");
         let dir_w = scratch.fresh("w");
         let dir_w2 = scratch.fresh("w2");
-        AWorker { cfg, scratch, dir_obs, dir_w, dir_w2 }
+        AWorker { base: Image::default(), cfg, scratch, dir_obs, dir_w, dir_w2 }
     }
 
     /// job payload: packed image, model code, op filter (u32::MAX all), flags
@@ -557,7 +560,7 @@ impl AWorker {
         let flags = r.u8();
         let nskip = r.u32();
         let skip: Vec<u64> = (0..nskip).map(|_| r.u64()).collect();
-        let image = Image::unpack(&packed);
+        let image = Image::unpack_delta(&packed, &self.base);
         let kt = self.cfg.kt;
         crate::with_kt!(kt, T => self.expand_t::<T>(&image, &code, filter, flags, &skip, io))
     }
@@ -785,7 +788,7 @@ impl AWorker {
                     }
                 }
                 let packed = match &succ {
-                    Some(s) => s.pack(),
+                    Some(s) => s.pack_delta(&self.base),
                     None => {
                         status = 2;
                         Vec::new()
@@ -1177,16 +1180,24 @@ pub fn make_replay(cfg: &ACfg, start: &Start, path: &[u32], last_op: i32, why: &
 
 /// breadth-first search to closure or cap. Violations are added to `run` under `cfg.prop`.
 pub fn bfs(cfg: &ACfg, starts: &[Start], caps: &Caps, pool: &mut Pool, run: &mut Run) -> BfsStats {
-    pool.reinit(vec![{
-        let mut b = Buf::new();
-        b.u8(JOB_A_CONFIG).bytes(&cfg.enc());
-        b.0
-    }]);
+    let base: Image = starts.first().map(|s| s.image.clone()).unwrap_or_default();
+    pool.reinit(vec![
+        {
+            let mut b = Buf::new();
+            b.u8(JOB_A_CONFIG).bytes(&cfg.enc());
+            b.0
+        },
+        {
+            let mut b = Buf::new();
+            b.u8(JOB_A_BASE).bytes(&base.pack());
+            b.0
+        },
+    ]);
     let mut index: HashMap<Vec<u8>, u32> = HashMap::new();
     let mut states: Vec<StateRec> = Vec::new();
     let mut frontier: Vec<(u32, Vec<u8>)> = Vec::new();
     for (si, s) in starts.iter().enumerate() {
-        let packed = s.image.pack();
+        let packed = s.image.pack_delta(&base);
         if index.contains_key(&packed) {
             continue;
         }
@@ -1308,7 +1319,7 @@ pub fn bfs(cfg: &ACfg, starts: &[Start], caps: &Caps, pool: &mut Pool, run: &mut
                             for ((idx, st1, p1), (_idx2, st2, p2)) in ex.succs.iter().zip(vx.succs.iter()) {
                                 if *st1 == 0 && (st2 != st1 || p1 != p2) {
                                     let (si, path) = path_to(&states, id);
-                                    let msg = format!("{} executed in two different processes and directories (second with read-only calls spliced in) gives different files: {}", cfg.op_label(*idx as usize), if *st2 == 0 { Image::unpack(p1).describe_diff(&Image::unpack(p2)) } else { "second execution failed".into() });
+                                    let msg = format!("{} executed in two different processes and directories (second with read-only calls spliced in) gives different files: {}", cfg.op_label(*idx as usize), if *st2 == 0 { Image::unpack_delta(p1, &base).describe_diff(&Image::unpack_delta(p2, &base)) } else { "second execution failed".into() });
                                     run.violation(Violation { prop: cfg.prop.clone(), key: format!("xproc:{}", cfg.op_kind(*idx as usize)), message: msg.clone(), replay: make_replay(cfg, &starts[si as usize], &path, *idx as i32, &msg) });
                                 }
                             }
@@ -1399,17 +1410,19 @@ pub fn replay(config: &[u8], case: &[u8]) -> i32 {
     let last_op = r.u32() as i32;
     println!("replay engine A: property {} key type {} parameters {}", cfg.prop, cfg.kt.name(), cfg.params[0].label());
     let mut w = AWorker::new(cfg.clone());
+    w.base = start.clone();
+    let base = start.clone();
     let mut io = crate::pool::WorkerIo::sink();
     let mut image = start;
     for (i, op) in path.iter().enumerate() {
-        let job = make_expand_job(&image.pack(), &code, *op, 4, &[]);
+        let job = make_expand_job(&image.pack_delta(&base), &code, *op, 4, &[]);
         let ex = parse_expanded(&w.expand(&job[1..], &mut io));
         println!("step {}: {} -> {}", i + 1, cfg.op_label(*op as usize), if ex.succs.first().map(|s| s.1) == Some(0) { "ok" } else { "FAILED" });
         for f in &ex.findings {
             println!("  finding: {}", f.3);
         }
         match ex.succs.first() {
-            Some((_, 0, p)) => image = Image::unpack(p),
+            Some((_, 0, p)) => image = Image::unpack_delta(p, &base),
             _ => {
                 println!("REPLAY: the path itself fails at step {}", i + 1);
                 return 1;
@@ -1419,7 +1432,7 @@ pub fn replay(config: &[u8], case: &[u8]) -> i32 {
     }
     println!("state after the path: sizes {:?}, model code {:?}", image.sizes(), code);
     let (filter, flags) = if last_op >= 0 { (last_op as u32, 1 | 4) } else { (u32::MAX - 1, 1 | 4) };
-    let job = make_expand_job(&image.pack(), &code, filter, flags, &[]);
+    let job = make_expand_job(&image.pack_delta(&base), &code, filter, flags, &[]);
     let ex = parse_expanded(&w.expand(&job[1..], &mut io));
     if ex.findings.is_empty() {
         println!("REPLAY: no violation reproduced");
